@@ -198,6 +198,16 @@ def c_respecify(ctx, args):
             gate.forward(M.PL(l))
             gate.backward(M.PL(l))
             gate.set_generator(M.P(g_new))
+        elif how == 'generator_inplace':
+            gobj = M.P(g_old)
+            gate.set_generator(gobj)
+            gate.forward(M.PL(l))
+            gate.backward(M.PL(l))
+            # the caller conjugates the generator it still holds (commuting the gate through another one): the gate's generator IS that object
+            rot = [[b for i in range(k) for b in ((g_new[0][2 * i], g_new[0][2 * i + 1]))], 0]
+            gobj.rotate_by(M.P(rot))
+            gobj.p = (int(gobj.p) + 2) % 4
+            g_new = M.oP(gobj)
         else:                     # 'generator_twice'
             gate.set_generator(M.P(g_old))
             gate.set_generator(M.P(g_new))
@@ -216,6 +226,41 @@ def c_respecify(ctx, args):
                 return {'kind': 'oracle', 'where': '%s:a gate re-specified (%s) and compiled again has a stale %s' % (be, how, nm), 'observed': M.oPL(getattr(gate, nm)), 'expected': M.oPL(getattr(fresh, nm)), 'tags': ['respecify', how]}
     except Exception as e:
         return {'kind': 'oracle', 'where': '%s:re-specified gate (%s) raised %s' % (be, how, type(e).__name__), 'observed': str(e)[:120], 'expected': 'the action of the last specification', 'tags': ['respecify', how]}
+    return None
+
+
+def c_compose_independent(ctx, args):
+    """after A.compose(B) the two circuits are two circuits: gates taken by one of them afterwards (or a compile of one of them) do not show in the other --
+    also when A was empty, when B is empty, and for a circuit composed with itself later"""
+    N, prog_a, prog_b, extra, l, which, do_compile, be = args
+    if be == 'np':
+        M = NP
+        mk = lambda prog: NP.build_circuit(N, prog, 'CliffordCircuit')
+    else:
+        import vlib.impl_torch as TT
+        M = TT
+        def mk(prog):
+            c = TT.build_circuit(N, prog)
+            c.N = N
+            return c
+    A, B = mk(prog_a), mk(prog_b)
+    try:
+        A.compose(B)
+        if do_compile:
+            A.compile()
+        tgt, other, other_prog = (A, B, prog_b) if which == 'A' else (B, A, prog_a + prog_b)
+        for ins in extra:
+            tgt.take(M.mk_gate(ins[1]))
+        o = M.PL(l)
+        other.forward(o)
+        got = M.oPL(o)
+    except Exception as e:
+        return {'kind': 'oracle', 'where': '%s:compose then extend raised %s' % (be, type(e).__name__), 'observed': str(e)[:120], 'expected': 'rows', 'tags': ['compose_independent', be]}
+    ref = NP.PL(l)
+    for ins in other_prog:
+        NP.mk_gate(ins[1]).forward(ref)
+    if got != NP.oPL(ref):
+        return {'kind': 'oracle', 'where': '%s:after A.compose(B), gates taken by %s afterwards changed the OTHER circuit' % (be, which), 'observed': got, 'expected': NP.oPL(ref), 'tags': ['compose_independent', be]}
     return None
 
 
@@ -270,6 +315,17 @@ def c_torch_prog(ctx, args):
                 tail.take(TT.mk_gate(ins[1]))
             c.N = N
             c.compose(tail)
+        elif variant == 'recompile':
+            # compile, extend (later gates may slide into layers that are compiled already), compile again
+            h = max(1, len(prog) // 2)
+            c = TT.build_circuit(N, prog[:h])
+            c.N = N
+            c.compile()
+            for ins in prog[h:]:
+                c.take(TT.mk_gate(ins[1]))
+                if mode == 1:
+                    c.compile()
+            c.compile()
         elif variant == 'copy_extend':
             h = max(1, len(prog) // 2)
             base = TT.build_circuit(N, prog[:h])
@@ -307,7 +363,7 @@ def c_torch_prog(ctx, args):
     return None
 
 
-CHECKS = {'respecify': c_respecify, 'torch_prog': c_torch_prog, 'copy_extend': c_copy_extend, 'reuse': c_reuse, 'recompile': c_recompile, 'prog_corr': c_prog_corr, 'prog_seq': c_prog_seq, 'gate_corr': c_gate_corr, 'local': c_local}
+CHECKS = {'compose_independent': c_compose_independent, 'respecify': c_respecify, 'torch_prog': c_torch_prog, 'copy_extend': c_copy_extend, 'reuse': c_reuse, 'recompile': c_recompile, 'prog_corr': c_prog_corr, 'prog_seq': c_prog_seq, 'gate_corr': c_gate_corr, 'local': c_local}
 
 
 def run(ctx):
@@ -326,12 +382,18 @@ def run(ctx):
     # history corpus: compile, add a gate that slides into an already compiled layer, compile again
     do(ctx, 'recompile', ['CliffordCircuit', 3, [[0, [[0], [0, [[1, 0], 0]]]]], [[0, [[2], [0, [[1, 1], 0]]]]], [[[0, 0, 0, 0, 1, 0], 2], [[0, 1, 0, 0, 0, 1], 1]], 2, 'take', 'forward'], nontrivial='rc0', sample=True)
     ctx.res.exhaustive = True
+    for it in range(int(60 * B)):
+        N = rng.randint(1, 4)
+        pa = [] if it % 3 == 0 else rprog(rng, ctx.model, N, rng.randint(1, 3))          # a third of the receivers are EMPTY circuits
+        pb = rprog(rng, ctx.model, N, rng.randint(1, 3)) if it % 5 else []
+        do(ctx, 'compose_independent', [N, pa, pb, rprog(rng, ctx.model, N, rng.randint(1, 2)), gen.rplist(rng, N, 3), 'AB'[it % 2], it % 4 == 0 and bool(pa or pb), ['np', 'np', 'torch'][it % 3 if it % 2 else 0]],
+           nontrivial=('ci', it))
     for it in range(int(45 * B)):
         N = rng.randint(1, 4)
         k = rng.randint(1, N)
         qs = sorted(rng.sample(range(N), k))
         full = lambda: [[b for i in range(k) for b in rng.choice([(1, 0), (0, 1), (1, 1)])], rng.choice([0, 2])]
-        do(ctx, 'respecify', [N, qs, full(), full(), gen.rplist(rng, N, 4), ['compile_then_generator', 'use_then_generator', 'generator_twice'][it % 3], ['np', 'np', 'torch'][it % 3 if it % 2 else 0]],
+        do(ctx, 'respecify', [N, qs, full(), full(), gen.rplist(rng, N, 4), ['compile_then_generator', 'use_then_generator', 'generator_twice', 'generator_inplace'][it % 4], ['np', 'np', 'torch'][it % 3 if it % 2 else 0]],
            nontrivial=('rs', it))
     # registers beyond one machine word, gates on the qubits next to the word boundaries (overlaps that a packed support would not see)
     for N in (65, 66, 130):
@@ -384,4 +446,4 @@ def run(ctx):
     for it in range(int(80 * B)):
         N = rng.randint(1, 5)
         prog = rprog(rng, ctx.model, N, rng.randint(1, 7))
-        do(ctx, 'torch_prog', [N, prog, gen.rplist(rng, N, 3), rng.choice([0, 0, 1, 2]), rng.choice(['orig', 'copy', 'halves', 'stale_halves', 'copy_extend']), rng.choice(['forward', 'backward'])], nontrivial=('tp', it))
+        do(ctx, 'torch_prog', [N, prog, gen.rplist(rng, N, 3), rng.choice([0, 0, 1, 2]), rng.choice(['orig', 'copy', 'halves', 'stale_halves', 'copy_extend', 'recompile', 'recompile']), rng.choice(['forward', 'backward'])], nontrivial=('tp', it))
